@@ -307,6 +307,11 @@ def build_files(ctx):
     for ftype in KNOWN:
         files[(ftype, 'snapshot')] = make_file(ctx, '%s_snap' % ftype, pf.snapshot_header(box=2000.0, ppd=48.0), [ftype], n)
         files[(ftype, 'lightcone')] = make_file(ctx, '%s_lc' % ftype, pf.lightcone_header(box=500.0, ppd=100.0), [ftype], n + 3)
+        if not ctx.quick:   # the same exhaustive call space on larger files with other scales
+            files[(ftype, 'snapshot-big')] = make_file(ctx, '%s_snap_big' % ftype, pf.snapshot_header(box=750.25, ppd=1000.0),
+                                                       [ftype], 257)
+            files[(ftype, 'lightcone-big')] = make_file(ctx, '%s_lc_big' % ftype, pf.lightcone_header(box=1.0, ppd=6912.0),
+                                                        [ftype], 100)
         xfiles.append(make_file(ctx, '%s_lc_other' % ftype, pf.lightcone_header(box=123.5, ppd=17.0, simset='Other'), [ftype], 9))
         xfiles.append(make_file(ctx, '%s_empty' % ftype, pf.snapshot_header(), [ftype], 0))
         xfiles.append(make_file(ctx, '%s_one' % ftype, pf.snapshot_header(box=1000.1), [ftype], 1))
@@ -357,7 +362,7 @@ def run(ctx):
     run_cases(ctx, cases)
     ctx.exhaustive = True
     ctx.extra['scope'] = ('4 file types x (None + all subsets of loadable columns) x 9 deprecated-flag pairs x 2 dtypes x '
-                          '2 header styles; 16 presence patterns x 7 colnames')
+                          '2 header styles (x 2 file sizes in the thorough tier); 16 presence patterns x 7 colnames')
 
 
 def intensify(ctx):
